@@ -54,6 +54,10 @@ func setupPrefix(args ...string) (handler.Handler6, error) {
 	if err != nil {
 		return nil, fmt.Errorf("Invalid pool subnet: %v", err)
 	}
+	if prefix.IP.To4() != nil {
+		// prefix delegation only exists for IPv6; the allocator does 128-bit arithmetic
+		return nil, fmt.Errorf("Invalid pool subnet: %s is not an IPv6 prefix", args[0])
+	}
 
 	allocSize, err := strconv.Atoi(args[1])
 	if err != nil || allocSize > 128 || allocSize < 0 {
